@@ -849,3 +849,377 @@ def replay_file(path):
         return 1
     print("the real code no longer emits the recorded fragments: the counterexample does not reproduce on this tree")
     return 0
+
+
+# ---------------------------------------------------------------------------
+# C14: arrowheads, rounded corners, bullets
+
+TAG_DIR = {"ArrowTop": (0, -2), "ArrowBottom": (0, 2), "ArrowLeft": (-1, 0), "ArrowRight": (1, 0),
+           "ArrowTopLeft": (-1, -2), "ArrowTopRight": (1, -2), "ArrowBottomLeft": (-1, 2),
+           "ArrowBottomRight": (1, 2)}
+# neighbour cell lying in direction (sx, sy) (signs of a direction vector)
+NB_BY_SIGN = {(-1, -1): "top_left", (0, -1): "top", (1, -1): "top_right", (-1, 0): "left", (1, 0): "right",
+              (-1, 1): "bottom_left", (0, 1): "bottom", (1, 1): "bottom_right"}
+
+
+def sgn(v):
+    return (v > 0) - (v < 0)
+
+
+def crossp(a, b, p):
+    return (b[0] - a[0]) * (p[1] - a[1]) - (b[1] - a[1]) * (p[0] - a[0])
+
+
+def chars_with_line(model, pred, min_signal=1):
+    """characters whose signature has a line (signal >= min_signal) satisfying pred(line)"""
+    out = set()
+    for ch in model.chars:
+        for sg, frs in model.t.signature_of(ch):
+            if sg >= min_signal and any(f[0] == "line" and pred(f) for f in frs):
+                out.add(ch)
+    return out
+
+
+def nb_offset_pt(nbname):
+    ox, oy = tables.NB_OFFSET[nbname]
+    return Pt(ox, 2 * oy)
+
+
+def q_c14_arrows(tr):
+    m = tr.model
+    for ch in m.chars:
+        beh = m.behaviour(ch)
+        k = 0
+        for ei, (cond, frs) in enumerate(beh):
+            for f in frs:
+                if f[0] != "polygon":
+                    continue
+                tags = [t for t in f[3] if t in TAG_DIR]
+                if not tags:
+                    continue
+                k += 1
+                name = "o14_1_arrow_%x_%d" % (ord(ch), k)
+                D = TAG_DIR[tags[0]]
+                pts = list(f[1])
+                proj = [p[0] * D[0] + p[1] * D[1] for p in pts]
+                tipv = max(proj)
+                tips = [p for p, pr in zip(pts, proj) if pr == tipv]
+                stubs = [g for g in frs if g[0] == "line"]
+                problems = []
+                if len(tags) != 1:
+                    problems.append("more than one arrow tag")
+                if len(tips) != 1:
+                    problems.append("no unique tip in the tagged direction %s" % tags[0])
+                if not f[2]:
+                    problems.append("arrowhead polygon is not filled")
+                axis_sets = None
+                if stubs and len(tips) == 1:
+                    tip = tips[0]
+                    ok_stub = None
+                    for st in stubs:
+                        a, b = st[1], st[2]
+                        if crossp(a, b, tip) != 0:
+                            continue
+                        # tip beyond the stub's end, in direction D
+                        pa = a[0] * D[0] + a[1] * D[1]
+                        pb = b[0] * D[0] + b[1] * D[1]
+                        if not (tipv >= pa and tipv >= pb and (tipv > pa or tipv > pb)):
+                            continue
+                        # stub runs along D
+                        dv = (b[0] - a[0], b[1] - a[1])
+                        if dv[0] * D[1] - dv[1] * D[0] != 0:
+                            continue
+                        ok_stub = st
+                    if ok_stub is None:
+                        problems.append("tip is not on the axis of (and beyond) the line stub emitted with it")
+                    else:
+                        a, b = ok_stub[1], ok_stub[2]
+                        sides = [sgn(crossp(a, b, p)) for p in pts if p != tip]
+                        if not (len(sides) >= 2 and min(sides) < 0 < max(sides) and 0 not in sides):
+                            problems.append("base vertices do not straddle the line's axis")
+                        # the neighbour the line comes from is the one opposite to D
+                        tail_nb = NB_BY_SIGN[(-sgn(D[0]), -sgn(D[1]))]
+                        off = nb_offset_pt(tail_nb)
+                        # continuity: the stub's tail end q lies on the border shared with the tail-side
+                        # neighbour, and that neighbour's line (collinear with the stub) passes through q
+                        q = a if (a[0] * D[0] + a[1] * D[1]) <= (b[0] * D[0] + b[1] * D[1]) else b
+                        in_tail_cell = off[0] <= q[0] <= off[0] + 1 and off[1] <= q[1] <= off[1] + 2
+                        if not in_tail_cell:
+                            problems.append("the line stub does not reach the border towards the line it terminates")
+                        S = chars_with_line(m, lambda ln: crossp(a - off, b - off, ln[1]) == 0 and crossp(a - off, b - off, ln[2]) == 0
+                                            and on_segment(ln[1], ln[2], q - off))
+                        axis_sets = (tail_nb, S)
+                elif len(tips) == 1:
+                    # an arrowhead without line stub (attached to a corner character): the tail-side neighbour must exist
+                    tail_nb = NB_BY_SIGN[(-sgn(D[0]), -sgn(D[1]))]
+                    axis_sets = (tail_nb, set(m.chars))
+                desc = ("character %r, behaviour entry %d: arrowhead polygon %s tagged %s: unique tip in the tagged "
+                        "direction, filled, tip on the axis of and beyond the line stub emitted with it, base vertices on "
+                        "opposite sides of that axis; and in EVERY neighbourhood in which the entry fires, the neighbour "
+                        "on the tail side carries a line along that axis that meets the stub at the shared cell border (so the head continues the line and points away from it)"
+                        % (ch, ei, [(float(p[0]), float(p[1])) for p in pts], tags))
+                if problems:
+                    # geometric defect of a concrete table entry: violation iff the entry is reachable
+                    tr.decide(name, "O14.1", desc, ch, [m.smt_formula(cond)], "; ".join(problems),
+                              key="arrow %r entry %d: %s" % (ch, ei, "; ".join(problems)))
+                    continue
+                if cond == T:
+                    # an unconditional glyph (Unicode triangle): nothing to quantify, geometry checked above
+                    tr.add(name, "O14.1", desc + " [unconditional glyph: geometry only]", "pass", queries=0,
+                           note="concrete geometry of the table entry")
+                    continue
+                nbn, S = axis_sets
+                notin = "(and %s)" % " ".join(["true"] + ["(not (= %s %s))" % (nbn, m.cname(c)) for c in sorted(S)])
+                tr.decide(name, "O14.1", desc, ch, [m.smt_formula(cond), notin],
+                          "arrowhead %s of %r fires although the %s neighbour carries no line along its axis" % (tags[0], ch, nbn),
+                          key="arrow %r entry %d fires without a line on its tail side" % (ch, ei))
+                res, _ = tr.solver.check([m.smt_formula(cond)], want_model=False)
+                tr.nq += 1
+                if res != "sat":
+                    tr.add(name + "_reach", "O14.1", "vacuity witness: the entry can fire", "inconclusive",
+                           reason="arrow entry is unreachable")
+
+
+def line_through(model, nbname, p, endpoint_only=False):
+    """chars whose signature (any signal) has a line with an endpoint at / passing through p
+    (p in the centre cell's coordinates; the neighbour is nbname)"""
+    off = nb_offset_pt(nbname)
+    q = p - off
+    if endpoint_only:
+        return chars_with_line(model, lambda ln: ln[1] == q or ln[2] == q)
+    return chars_with_line(model, lambda ln: on_segment(ln[1], ln[2], q))
+
+
+def cells_containing(p):
+    """neighbour cells (closed rectangles) that contain point p (centre-cell coordinates)"""
+    out = []
+    for nb in NEIGHBOURS:
+        off = nb_offset_pt(nb)
+        if off[0] <= p[0] <= off[0] + 1 and off[1] <= p[1] <= off[1] + 2:
+            out.append(nb)
+    return out
+
+
+CORNER_CHARS = [".", ",", "'", "`", "’"]
+
+
+BOX_EDGES = ["-", "|", "~", ":", "!"]
+RUN_CHARS = ["-", "|", "/", "\\", "~", ":", "!"]
+
+
+def q_c14_corners(tr):
+    m = tr.model
+    R = restrict(m, {"*": [c for c in BOX_EDGES if c in m.index]})
+    for ch in CORNER_CHARS:
+        if ch not in m.index:
+            continue
+        beh = m.behaviour(ch)
+        k = 0
+        for ei, (cond, frs) in enumerate(beh):
+            arcs = [f for f in frs if f[0] == "arc"]
+            lines_here = [f for f in frs if f[0] == "line"]
+            for f in arcs:
+                k += 1
+                name = "o14_2_corner_%x_%d" % (ord(ch), k)
+                s, e = f[1], f[2]
+                res, _ = tr.solver.check(R + [m.smt_formula(cond)], want_model=False)
+                tr.nq += 1
+                if res != "sat":
+                    continue  # this arc never appears in an outline of box edges
+                desc = ("character %r, behaviour entry %d, arc %s->%s r=%s sweep=%d: in EVERY neighbourhood over {blank, - | ~ : !} "
+                        "(outlines of box edges) in which the entry fires, each arc endpoint is the end of a line this cell emits or lies on a line of the neighbour "
+                        "whose cell contains it (continuity); and the SVG centre lies on the far side of the chord from the "
+                        "corner vertex where the two adjoining line axes meet (the arc bulges outward)"
+                        % (ch, ei, tuple(map(float, s)), tuple(map(float, e)), float(f[3]), int(f[4])))
+                # --- continuity at both endpoints (solver: for all neighbourhoods with cond)
+                viol = []
+                axes = []
+                for p in (s, e):
+                    own = [ln for ln in lines_here if ln[1] == p or ln[2] == p]
+                    alts = ["false"]
+                    # lines emitted by other entries of the same cell that end at p
+                    for cj, fj in beh:
+                        if any(g[0] == "line" and (g[1] == p or g[2] == p) for g in fj):
+                            alts.append(m.smt_formula(cj))
+                    nbs = cells_containing(p)
+                    for nb in nbs:
+                        S = line_through(m, nb, p)
+                        if S:
+                            alts.append("(or false %s)" % " ".join("(= %s %s)" % (nb, m.cname(c)) for c in sorted(S)))
+                    viol.append("(not (or %s))" % " ".join(alts))
+                    # adjoining axis for the centre-side test: own line first, else any neighbour line through p
+                    if own:
+                        axes.append((own[0][1], own[0][2]))
+                    else:
+                        cand = None
+                        for nb in nbs:
+                            off = nb_offset_pt(nb)
+                            for c2 in sorted(line_through(m, nb, p)):
+                                if m.eval_formula_possible(cond, nb, c2):
+                                    for sg, frs2 in m.t.signature_of(c2):
+                                        for ln in frs2:
+                                            if ln[0] == "line" and on_segment(ln[1], ln[2], p - off):
+                                                cand = (ln[1] + off, ln[2] + off)
+                                                break
+                                        if cand:
+                                            break
+                                if cand:
+                                    break
+                            if cand:
+                                break
+                        axes.append(cand)
+                tr.decide(name + "_join", "O14.2", desc, ch,
+                          R + [m.smt_formula(cond), "(or %s)" % " ".join(viol)],
+                          "an endpoint of the corner arc of %r (entry %d) meets no line" % (ch, ei),
+                          key="corner %r entry %d: arc endpoint meets no line" % (ch, ei))
+                # --- bulge direction (concrete geometry; violation iff the entry is reachable)
+                if axes[0] and axes[1]:
+                    (a1, b1), (a2, b2) = axes
+                    d1 = (b1[0] - a1[0], b1[1] - a1[1])
+                    d2 = (b2[0] - a2[0], b2[1] - a2[1])
+                    den = d1[0] * d2[1] - d1[1] * d2[0]
+                    if den != 0:
+                        t = ((a2[0] - a1[0]) * d2[1] - (a2[1] - a1[1]) * d2[0]) / den
+                        V = (a1[0] + t * d1[0], a1[1] + t * d1[1])
+                        (cx, cy), r = arc_centre(f)
+                        midx, midy = float(s[0] + e[0]) / 2, float(s[1] + e[1]) / 2
+                        dotp = (float(V[0]) - midx) * (cx - midx) + (float(V[1]) - midy) * (cy - midy)
+                        on_chord = abs(float(crossp(s, e, Pt(V[0], V[1])))) < 1e-12
+                        if not on_chord and dotp >= -1e-12:
+                            tr.decide(name + "_bulge", "O14.2", desc, ch, R + [m.smt_formula(cond)],
+                                      "corner arc of %r (entry %d) has its centre on the corner's outer side: it bulges inward" % (ch, ei),
+                                      key="corner %r entry %d: arc bulges inward" % (ch, ei))
+                        else:
+                            tr.add(name + "_bulge", "O14.2", desc, "pass", queries=0, note="concrete geometry of the table entry")
+
+
+def q_c14_bullets(tr):
+    m = tr.model
+    mid = Pt(Fraction(1, 2), 1)
+    kinds = {"*": "filled", "o": "open", "O": "bigopen"}
+    for ch, kind in kinds.items():
+        if ch not in m.index:
+            tr.add("o14_3_bullet_%x" % ord(ch), "O14.3", "", "inconclusive", reason="bullet %r has no entry" % ch)
+            continue
+        beh = m.behaviour(ch)
+        circle_conds, line_conds, bad_geom, other = [], [], [], []
+        for cond, frs in beh:
+            for f in frs:
+                if f[0] == "circle":
+                    circle_conds.append(cond)
+                    r = float(f[2])
+                    ok = f[1] == mid and ((kind == "filled" and f[3]) or
+                                          (kind == "open" and not f[3] and r < 0.5) or
+                                          (kind == "bigopen" and not f[3] and 0.5 <= r <= 0.75))
+                    if not ok:
+                        bad_geom.append(cond)
+                elif f[0] == "line":
+                    line_conds.append(cond)
+                    a, b = f[1], f[2]
+                    # the stub points at the bullet centre and ends close enough to be merged with it
+                    coll = crossp(a, b, mid) == 0
+                    near = min(math.hypot(float(p[0] - mid[0]), float(p[1] - mid[1])) for p in (a, b))
+                    dx, dy = abs(float(b[0] - a[0])), abs(float(b[1] - a[1]))
+                    thr = (1.0 if dy == 0 else 2.0 if dx == 0 else math.hypot(1.0, 2.0)) * 0.75
+                    if not (coll and near <= thr + 1e-9):
+                        bad_geom.append(cond)
+                else:
+                    other.append(cond)
+        pointing = []
+        for nb in NEIGHBOURS:
+            off = nb_offset_pt(nb)
+            S = chars_with_line(m, lambda ln: crossp(ln[1] + off, ln[2] + off, mid) == 0)
+            pointing.append("(or false %s)" % " ".join("(= %s %s)" % (nb, m.cname(c)) for c in sorted(S)))
+        base = "o14_3_bullet_%x" % ord(ch)
+        d = "bullet %r (%s), neighbours over {blank/label, - | / \\ ~ : !}: " % (ch, kind)
+        R = restrict(m, {"*": [c for c in RUN_CHARS if c in m.index]})
+        tr.decide(base + "_geom", "O14.3", d + "every circle it can emit is centred on the cell centre m with the documented kind "
+                  "(filled / open r<0.5 / big open 0.5<=r<=0.75) and every line stub it can emit is collinear with m and ends within "
+                  "merge distance of m", ch, [m.smt_formula(f_any(bad_geom))],
+                  "bullet %r emits a circle/stub with wrong geometry" % ch)
+        tr.decide(base + "_stub_implies_circle", "O14.3", d + "in EVERY neighbourhood: a connecting stub is emitted only together with the circle",
+                  ch, R + [m.smt_formula(f_any(line_conds)), m.smt_formula(tables.f_not(f_any(circle_conds)))],
+                  "bullet %r draws a stub without its circle" % ch)
+        tr.decide(base + "_circle_needs_line", "O14.3", d + "in EVERY neighbourhood: the circle is emitted only if some neighbour carries a "
+                  "line whose axis passes through m (an unattached bullet stays text)", ch,
+                  R + [m.smt_formula(f_any(circle_conds)), "(not (or %s))" % " ".join(pointing)],
+                  "bullet %r becomes a circle with no line pointing at it" % ch)
+        # attached to a plain run character in any of the 8 directions => circle
+        runs = {"left": "-", "right": "-", "top": "|", "bottom": "|", "top_left": "\\", "bottom_right": "\\",
+                "top_right": "/", "bottom_left": "/"}
+        att = "(or %s)" % " ".join("(= %s %s)" % (nb, m.cname(c)) for nb, c in runs.items())
+        tr.decide(base + "_attached_is_circle", "O14.3", d + "in EVERY neighbourhood in which a plain run character (- | / \\) of the "
+                  "matching direction is adjacent, the circle is emitted (so the bullet is not shown as text)", ch,
+                  R + [att, m.smt_formula(tables.f_not(f_any(circle_conds)))],
+                  "bullet %r attached to a line is not drawn as a circle" % ch)
+
+
+def q_c14(tr):
+    q_c14_arrows(tr)
+    q_c14_corners(tr)
+    q_c14_bullets(tr)
+
+
+QUERIES["C14"] = q_c14
+
+
+def q_c14_corner_completeness(tr):
+    """every corner character closes the outline in each of its two orientations: with a horizontal
+    edge on one side and a vertical edge (or the matching corner of a one-row-high box) above/below,
+    the cell emits fragments that end at BOTH border junction points"""
+    m = tr.model
+    cg = m.t.interp.cellgrid_fns
+    P = lambda n: m.t.interp.call_fn(cg, n, [])
+    c, k, o, w = P("c"), P("k"), P("o"), P("w")
+    H = [x for x in ["-", "~"] if x in m.index]
+    # (corner char, side of the horizontal edge) -> characters that may continue the outline vertically.
+    # Orientations per spec.md / README: '.' and ',' are top corners (',' top-left only), "'" and '`' are
+    # bottom corners ('`' bottom-left only); a one-row-high rounded box pairs '.' over "'" and ',' over '`'.
+    VERT = ["|", ":", "!"]
+    styles = [
+        (".", "top", "right", VERT + ["'", "`"]),   # top-left corner: edge to the right, outline continues below
+        (".", "top", "left", VERT + ["'"]),         # top-right corner
+        (",", "top", "right", VERT + ["`", "'"]),   # top-left corner
+        ("'", "bottom", "right", VERT + ["."]),     # bottom-left corner (',' pairs with '`', not with "'")
+        ("'", "bottom", "left", VERT + ["."]),      # bottom-right corner
+        ("`", "bottom", "right", VERT + [".", ","]),  # bottom-left corner
+        ("’", "bottom", "right", VERT + ["."]),
+        ("’", "bottom", "left", VERT + ["."]),
+    ]
+    for ch, kind, hside, vchars in styles:
+        if ch not in m.index:
+            continue
+        beh = m.behaviour(ch)
+        if True:
+            vside = "bottom" if kind == "top" else "top"
+            jh = k if hside == "left" else o
+            jv = w if vside == "bottom" else c
+            allowed = {n: [] for n in NEIGHBOURS}
+            allowed[hside] = H
+            allowed[vside] = [x for x in vchars if x in m.index]
+            R = restrict(m, allowed)
+            R.append("(not (= %s NONE))" % hside)
+            R.append("(not (= %s NONE))" % vside)
+
+            def reach(p):
+                return f_any(cond for cond, frs in beh
+                             if any(f[0] in ("line", "arc") and (f[1] == p or f[2] == p) for f in frs))
+            viol = tables.f_or(tables.f_not(reach(jh)), tables.f_not(reach(jv)))
+            name = "o14_2_corner_closes_%x_%s" % (ord(ch), hside)
+            desc = ("corner %r as a %s-%s corner: %s neighbour in {- ~}, %s neighbour in %s, every other neighbour blank "
+                    "(all box heights from one row on): the cell emits a line or arc ending at the junction with the "
+                    "horizontal edge AND one ending at the junction with the vertical edge, so the outline is closed"
+                    % (ch, kind, hside, hside, vside, allowed[vside]))
+            tr.decide(name, "O14.2", desc, ch, R + [m.smt_formula(viol)],
+                      "corner %r leaves the outline open on its %s/%s side" % (ch, hside, vside))
+
+
+_q_c14_prev = q_c14
+
+
+def q_c14(tr):
+    _q_c14_prev(tr)
+    q_c14_corner_completeness(tr)
+
+
+QUERIES["C14"] = q_c14
